@@ -317,8 +317,10 @@ pub fn soup_token(ch: &mut Choices) -> String {
             let i = ch.below(n);
             let w = WORDS.with(|w| w[i].0.clone());
             if ALLOC_LAST.contains(&w.as_str()) {
-                // the width is an allocation size: keep it modest (the statement's proviso)
-                format!("{} {}", [0, 1, 7, 8, 64, 128, 129, 4096][ch.below(8)], w)
+                // the width is an allocation size (the statement's proviso: modest).  In a soup it cannot be kept
+                // modest by construction - a retried or shifted stack turns any integer into the width - so the two
+                // words are left to the systematic grid (modest widths) and to C05 / C07
+                "8 u8!".to_string()
             } else {
                 w
             }
@@ -361,6 +363,7 @@ fn session_case(ch: &mut Choices, ctx: &CaseCtx) -> CaseOut {
             0 => {
                 let p = SESSION_PROGS[ch.below(SESSION_PROGS.len())];
                 log.push(format!("compile {:?}", p));
+                if std::env::var("VERIF_TRACE").is_ok() { eprintln!("TRACE-S {}", log.last().unwrap()); }
                 guard(|| {
                     let _ = xs.compile(p);
                 })
@@ -368,6 +371,7 @@ fn session_case(ch: &mut Choices, ctx: &CaseCtx) -> CaseOut {
             1 => {
                 let n = 1 + ch.below(12);
                 log.push(format!("next x{}", n));
+                if std::env::var("VERIF_TRACE").is_ok() { eprintln!("TRACE-S {}", log.last().unwrap()); }
                 guard(|| {
                     for _ in 0..n {
                         if xs.next().is_err() {
@@ -410,6 +414,9 @@ fn session_case(ch: &mut Choices, ctx: &CaseCtx) -> CaseOut {
                 })
             }
         };
+        if std::env::var("VERIF_TRACE").is_ok() {
+            eprintln!("TRACE {}", log.last().unwrap());
+        }
         let r = r.and_then(|_| {
             let res: Xresult = Ok(());
             after_calls_light(&mut xs, &res)
@@ -444,6 +451,9 @@ pub fn case(ch: &mut Choices, ctx: &CaseCtx) -> CaseOut {
     let mut total_tokens = 0usize;
     let mut last_word = String::new();
     for _ in 0..ncalls {
+        if std::env::var("VERIF_TRACE").is_ok() {
+            eprintln!("TRACE after: {:?}", log.last());
+        }
         let call = ch.weighted(&[8, 4, 3, 3, 2, 1, 1]);
         let r: Result<(), String> = match call {
             0 | 1 => {
@@ -453,6 +463,9 @@ pub fn case(ch: &mut Choices, ctx: &CaseCtx) -> CaseOut {
                 last_word = toks.last().cloned().unwrap_or_default();
                 let src = toks.join(" ");
                 log.push(format!("{} {:?}", if call == 0 { "eval" } else { "compile" }, src));
+                if std::env::var("VERIF_TRACE").is_ok() {
+                    eprintln!("TRACE {}", log.last().unwrap());
+                }
                 let res = guard(|| if call == 0 { xs.eval(&src) } else { xs.compile(&src) });
                 match res {
                     Ok(r) => after_calls_light(&mut xs, &r),
